@@ -20,7 +20,7 @@ use tokio_util::codec::{Decoder as _, Encoder as _};
 use tracing::{error, trace};
 
 use super::{
-    codec::Codec,
+    codec::{Codec, EncodeCtx},
     decoder::MAX_BUFFER_SIZE,
     payload::{Payload, PayloadSender, PayloadStatus},
     timer::TimerState,
@@ -186,7 +186,8 @@ pin_project! {
 }
 
 enum DispatcherMessage {
-    Item(Request),
+    // a queued request and the context its response has to be encoded with
+    Item(Request, EncodeCtx),
     Upgrade(Request),
     Error(Response<()>),
 }
@@ -583,7 +584,9 @@ where
                 // no future is in InnerDispatcher state; pop next message
                 StateProj::None => match this.messages.pop_front() {
                     // handle request message
-                    Some(DispatcherMessage::Item(req)) => {
+                    Some(DispatcherMessage::Item(req, ctx)) => {
+                        this.codec.set_encode_ctx(ctx);
+
                         // Handle `EXPECT: 100-Continue` header
                         if req.head().expect() {
                             // set InnerDispatcher state and continue loop to poll it
@@ -900,6 +903,9 @@ where
 
         // decode from read buf as many full requests as possible
         loop {
+            // decoding a request head overwrites the context the in-flight response needs
+            let in_flight_ctx = this.codec.encode_ctx();
+
             match this.codec.decode(this.read_buf) {
                 Ok(Some(msg)) => {
                     updated = true;
@@ -945,7 +951,9 @@ where
                                 self.as_mut().handle_request(req, cx)?;
                                 this = self.as_mut().project();
                             } else {
-                                this.messages.push_back(DispatcherMessage::Item(req));
+                                let ctx = this.codec.encode_ctx();
+                                this.codec.set_encode_ctx(in_flight_ctx);
+                                this.messages.push_back(DispatcherMessage::Item(req, ctx));
                             }
                         }
 
